@@ -170,6 +170,14 @@ pub fn main(args: &[String]) {
             let (bo, bn) = (&obs.aout.code[oi - n_imp], &obs.aout.code[ni - n_imp]);
             let to: Vec<String> = bo.ops.iter().map(|o| o.0.clone().unwrap_or_else(|| o.2.to_string())).collect();
             let tn: Vec<String> = bn.ops.iter().map(|o| o.0.clone().unwrap_or_else(|| o.2.to_string())).collect();
+            // independent oracle: what the twin is emitted as is the INPUT body in normal form (nop / dead code dropped, `else` added) - an error of the
+            // emitter that hits original and twin alike does not cancel out
+            if let Ok(ain) = amod::decode(&wasm) { let nin = ain.imports.iter().filter(|i| matches!(i.2, amod::AImportKind::Func(_))).count();
+                if let Some(body_in) = orig.index().checked_sub(nin).and_then(|k| ain.code.get(k)) {
+                    let name_of = |s: &String| -> String { let t = s.trim_start_matches("WOp (").trim_start_matches("W_"); t.split(|c: char| c == ' ' || c == ')').next().unwrap_or("").to_string() };
+                    let want: Vec<String> = crate::body::normal_form(&body_in.ops).iter().map(name_of).collect(); let got: Vec<String> = tn.iter().map(name_of).collect();
+                    if want != got { viol.push(Json::obj(vec![("class", Json::s("builder-twin-not-the-normal-form-of-the-input")), ("props", Json::s("C15")), ("what", Json::s("a function re-built through the builder API is not emitted as the in-order flattening of its tree (the input body with nop / dead code dropped and `else` added)")),
+                        ("input", Json::s(crate::c03::hex(&wasm))), ("expected", Json::s(want.join(" "))), ("observed", Json::s(got.join(" ")))])); } } }
             // independent oracle: the builder-made twin emits exactly what the parsed original emits
             if to != tn || bo.locals != bn.locals {
                 viol.push(Json::obj(vec![("class", Json::s("builder-twin-differs")), ("props", Json::s("C15")), ("what", Json::s("a function re-built through the builder API (same tree, arbitrary insertion order) is not emitted as the same operator stream as the parsed original")),
